@@ -773,7 +773,11 @@ PROPS = {
         level="proof", module="Rsdns.Props.C01",
         technique="Lean 4 theorems (no panic / no out-of-buffer access for every decoding entry point, well-founded termination, step bound) + differential correspondence with crash/guard-page oracles",
         level_text="Theorems over the Lean model for all byte strings: names (read/skip/iterate), NameRef::eq, all 17 RDATA decoders "
-                   "return a value or an error from any in-buffer cursor; every MessageReader call history is free of out-of-buffer access; "
+                   "return a value or an error from any in-buffer cursor; every MessageReader call history is free of out-of-buffer access "
+                   "(reader_no_over_read, any markers); along every history that calls header() first and makes each data call with the "
+                   "marker just returned, every MessageReader call returns a value or an error — no debug assertion, no checked-counter "
+                   "overflow/underflow, no unchecked read outside the buffer (reader_safe; invariant Sane = cursor view inside the message + "
+                   "read<=total<=65535 for every counter + cursor at the pending marker's RDATA); "
                    "termination by well-founded recursion with an explicit step bound. Correspondence on six decode streams with the "
                    "checked build profile, guard pages and a watchdog as implementation-side oracles.",
         level_note="Trusted: Lean kernel; hand-written model (validated by correspondence each run); harness oracles (abort = unsafe "
@@ -854,13 +858,15 @@ PROPS = {
                    "history, the reader is always dead (sticky), inside the questions at the pass position, between records at the "
                    "index of its counters, or in the middle of the record whose marker it returned; seek succeeds whenever the "
                    "documented criterion holds and lands on the first record of the section (or the next non-empty one); record "
-                   "offsets grow. Panics are excluded by hypothesis there (C01/C17 treat them). Messages whose skip pass fails midway "
+                   "offsets grow. `run_conforming` excludes panics by hypothesis; `run_documented` discharges it with C01's invariant (Sane), "
+                   "so the statement holds for the documented call order alone, with every call returning a value or an error. "
+                   "Messages whose skip pass fails midway "
                    "are covered by the latch theorems, the automaton and the correspondence. Trusted: Lean kernel; model of "
                    "reader.rs/section_tracker.rs (validated by `seekhist`/`reader`); tools/spec_c09.py.",
         streams=[dict(name="seekhist"), dict(name="reader", quick=8000)],
         explanation="C09: done_sticky, *_error_latches, seek_error, seek_known, exhausted_reports_done, header_attribution, "
                     "data_advances, last_question, seek_index, seek_lands, doc_known, learned_offsets_true, pair_follows_pass; "
-                    "C09History: sit_step, run_conforming, seek_when_documented, sit_after_header, offsets_grow; stream `seekhist`.",
+                    "C09History: sit_step, run_conforming, run_documented, seek_when_documented, sit_after_header, sane_after_header, offsets_grow; stream `seekhist`.",
     ),
     "C06": dict(
         level="proof", module="Rsdns.Props.C06",
